@@ -129,6 +129,49 @@ fn read_all(client: &mut std::net::TcpStream) -> Vec<u8> {
     out
 }
 
+extern "C" {
+    fn getrlimit(resource: i32, rlim: *mut [u64; 2]) -> i32;
+    fn setrlimit(resource: i32, rlim: *const [u64; 2]) -> i32;
+    fn signal(signum: i32, handler: usize) -> usize;
+    fn dup(fd: i32) -> i32;
+    fn dup2(a: i32, b: i32) -> i32;
+    fn close(fd: i32) -> i32;
+}
+const RLIMIT_FSIZE: i32 = 1;
+const SIGXFSZ: i32 = 25;
+const SIG_IGN: usize = 1;
+
+/// Mode X: like D, with a disk write fault: while the connection is handled no file of this process may grow
+/// beyond `limit` bytes (RLIMIT_FSIZE with SIGXFSZ ignored: the write fails with EFBIG, as on a full disk)
+fn direct_fsize(toks: &[&str]) -> String {
+    let limit: u64 = toks[2].parse().unwrap();
+    let mut old = [0u64; 2];
+    unsafe {
+        signal(SIGXFSZ, SIG_IGN);
+        getrlimit(RLIMIT_FSIZE, &mut old);
+        setrlimit(RLIMIT_FSIZE, &[limit, old[1]]);
+    }
+    // the harness's own stdout is a regular file: the code under test prints diagnostics there, and that file must
+    // not be hit by the limit -- send fd 1 to /dev/null while the limit is on
+    use std::os::fd::AsRawFd;
+    let null = std::fs::OpenOptions::new().write(true).open("/dev/null").unwrap();
+    std::io::stdout().flush().unwrap();
+    let saved = unsafe { dup(1) };
+    unsafe { dup2(null.as_raw_fd(), 1) };
+    struct Restore([u64; 2], i32);
+    impl Drop for Restore {
+        fn drop(&mut self) {
+            unsafe {
+                setrlimit(RLIMIT_FSIZE, &self.0);
+                dup2(self.1, 1);
+                close(self.1);
+            }
+        }
+    }
+    let _restore = Restore(old, saved);
+    direct(&[toks[0], toks[1], toks[3]])
+}
+
 fn direct(toks: &[&str]) -> String {
     let small: usize = toks[0].parse().unwrap();
     let tmp = temp_dir::TempDir::new().unwrap();
@@ -273,6 +316,7 @@ fn main() {
         "D" => direct(&toks[1..]),
         "S" => server(&toks[1..], false),
         "I" => server(&toks[1..], true),
+        "X" => direct_fsize(&toks[1..]),
         _ => "?".to_string(),
     });
 }
